@@ -139,6 +139,27 @@ contract("verif.harness.hd.pub_child#hardened", props=("C08",), nl_uf=True,
          ensures=["raises(ValueError)", "i < 0 or spec.hd.ckd_pub((K, c), i) is None"],
          gen=_pubnode(_with_index(lo=H, hi=2**32 + 5, also=(-1, -H, 2**32, 2**33))))
 
+# ---------------------------------------------------------------------------- history: memoised serialisation (HDPublicKey._raw)
+# the parent has been serialised before the child is derived; the child's bytes must be its own
+_XPUB = "spec.hd.version_pub('x')"
+contract("verif.harness.hd.pub_child_after_serialize", props=("C08",), nl_uf=True,
+         params=dict(_PUB_PARAMS, depth=("int", 0, 254), i=("int", 0, H - 1)),
+         requires=["depth < 255", "spec.hd.ckd_pub_defined((K, c), i)"],
+         ensures=["returns()",
+                  "result[0] == spec.hd.xpub_ser(%s, depth + 1, spec.hd.fingerprint(K), i, spec.hd.ckd_pub((K, c), i)[1], "
+                  "spec.hd.ckd_pub((K, c), i)[0])" % _XPUB,
+                  "len(result[0]) == 78", "result[3] == depth + 1 and result[5] == i"],
+         gen=_pubnode(_with_index(lo=0, hi=H - 1)))
+
+contract("verif.harness.hd.priv_child_after_serialize", props=("C08",), nl_uf=True,
+         params=dict(_PRIV_PARAMS, depth=("int", 0, 254), i=("int", 0, 2**32 - 1)),
+         requires=["depth < 255", "spec.hd.ckd_priv_defined((k, c), i)"],
+         ensures=["returns()",
+                  "result[0] == spec.hd.xpub_ser(%s, depth + 1, spec.hd.fingerprint_priv(k), i, spec.hd.ckd_priv((k, c), i)[1], "
+                  "spec.curve.mul_G(spec.hd.ckd_priv((k, c), i)[0]))" % _XPUB,
+                  "len(result[0]) == 78"],
+         gen=_with_index(lo=0, hi=2**32 - 1))
+
 # ---------------------------------------------------------------------------- public / private consistency
 _SAME10 = ["spec.curve.same(result[0], result[5])", "result[1] == result[6]", "result[2] == result[7]",
            "result[3] == result[8]", "result[4] == result[9]"]
